@@ -220,7 +220,8 @@ def base_histories(tier: str, rnd: random.Random) -> list[dict[str, Any]]:
             for b0_, b1_ in (("b0", "b1"), ("b1", "b0"), ("b0", "b2")):
                 cyc.append({"w0": {"a": a, "b": b0_, "c": c_}, "w1": {"a": a, "b": b1_, "c": c_}, "cat": "R-cycle"})
     if tier == "quick":
-        rjobs = cyc[0:4] + cyc[36:38] + rjobs
+        # re-exporting b (b0), b with a module-level use (b1) and b with a use inside a function (b2) of c's interface
+        rjobs = cyc[0:4] + cyc[4:6] + cyc[8:10] + cyc[36:38] + rjobs
     else:
         rjobs = cyc + rjobs
     if tier == "quick":
